@@ -647,8 +647,9 @@ def _r2(ctx):
         raise AnalysisError("eigenval: eigvalsh call not found")
     uplo = next((const_value(k.value) for k in ev[0].keywords if k.arg == "UPLO"), "L")
     arg = ev[0].args[0]
-    if isinstance(arg, ast.Attribute) and arg.attr == "T":
-        transposed = not transposed
+    if isinstance(arg, ast.Attribute) and arg.attr == "T" and not any(x is lit[0] for x in ast.walk(arg)):
+        transposed = not transposed            # a named array transposed at the call (a transposition around the literal itself
+                                               # was counted on the way up from the literal)
     lower = (uplo == "L")
     # consumed entries of the matrix eigvalsh sees: (i,j) with i>=j if lower ; in terms of the literal: [j][i] if transposed
     for i in range(3):
